@@ -199,14 +199,15 @@ def retryStep (fl : FnFlags) (s : SPos) (retry : Option (List Nat × SPos)) :
 def wfn (fl : FnFlags) : (fuel : Nat) → (p : List Nat) → (s : SPos) → (retry : Option (List Nat × SPos)) → Nat
   | 0, _, _, _ => 2                                   -- out of fuel (never with the fuel of `wfnmatch`)
   | f + 1, p, s, retry =>
-    let doRetry : Nat :=
+    -- (a thunk: evaluated only on the paths that jump to `nomatch_retry`)
+    let doRetry : Unit → Nat := fun _ =>
       match retryStep fl s retry with
       | .inl r => r
       | .inr (p', s', retry') => wfn fl f p' s' retry'
     let lit (pc : Nat) (prest : List Nat) : Nat :=
       let sc := s.rest.getD 0 0
       if sc = cSlash ∧ pc = 0 ∧ fl.leadingDir then 0
-      else if !cmpFold fl pc sc then doRetry
+      else if !cmpFold fl pc sc then doRetry ()
       else if s.rest = [] then 0
       else wfn fl f prest s.adv retry
     match p with
@@ -216,12 +217,12 @@ def wfn (fl : FnFlags) : (fuel : Nat) → (p : List Nat) → (s : SPos) → (ret
         if p1.head? == some cDot && disallow fl s then 1
         else wfn fl f p1 s (some (p1, s))
       else if pc = cQuest then
-        if disallow fl s then doRetry else wfn fl f p1 s.adv retry
+        if disallow fl s then doRetry () else wfn fl f p1 s.adv retry
       else if pc = cLB then
-        if disallow fl s then doRetry
+        if disallow fl s then doRetry ()
         else
           match matchClass fl p1 (s.rest.getD 0 0) with
-          | none => doRetry
+          | none => doRetry ()
           | some rest => wfn fl f rest s.adv retry
       else if pc = cBSl ∧ !fl.noescape then
         match p1 with
